@@ -340,4 +340,23 @@ WITNESSES = [
     dict(id="c01-partition-swapped", prop="C01", file=F, expect=["R01d", "R01e"],
          old="            if factor.is_commutative:\n                c_part.append(factor)",
          new="            if not factor.is_commutative:\n                c_part.append(factor)"),
+    # ---- round 4: screening by contraction partners (type(..) is type(..) over the operator classes), objects of a
+    # term modelled as expr_container.Obj around the four tensor classes / deltas / symbols / numbers
+    dict(id="c01-prefilter-partner-particle-test", prop="C01", file=F, expect=["R01c", "R01e"],
+         old='        if n_create - n_annihilate > 0:\n            return False\n    return True\n', new='        if n_create - n_annihilate > 0:\n            return False\n    # each operator needs at least one operator it can be contracted with\n    return all(_has_contraction_partner(op_string, pos)\n               for pos in range(len(op_string)))\n\n\ndef _has_contraction_partner(op_string, pos: int) -> bool:\n    op = op_string[pos]\n    for other_pos, other in enumerate(op_string):\n        if type(other) is type(op):  # 2xCreator, 2xAnnihilator or op itself\n            continue\n        left, right = (op, other) if pos < other_pos else (other, op)\n        spaces = {left.args[0].space, right.args[0].space}\n        if isinstance(left, Fd):  # hole contraction: no virtual index\n            if "virt" not in spaces:\n                return True\n        elif "virt" in spaces:  # particle contraction: no occupied index\n            return True\n    return False\n'),
+    dict(id="c01-ok-prefilter-partner", prop="C01", file=F, expect=None,
+         old='        if n_create - n_annihilate > 0:\n            return False\n    return True\n', new='        if n_create - n_annihilate > 0:\n            return False\n    # each operator needs at least one operator it can be contracted with\n    return all(_has_contraction_partner(op_string, pos)\n               for pos in range(len(op_string)))\n\n\ndef _has_contraction_partner(op_string, pos: int) -> bool:\n    op = op_string[pos]\n    for other_pos, other in enumerate(op_string):\n        if type(other) is type(op):  # 2xCreator, 2xAnnihilator or op itself\n            continue\n        left, right = (op, other) if pos < other_pos else (other, op)\n        spaces = {left.args[0].space, right.args[0].space}\n        if isinstance(left, Fd):  # hole contraction: no virtual index\n            if "virt" not in spaces:\n                return True\n        elif "occ" not in spaces:  # particle contraction: no occupied index\n            return True\n    return False\n'),
+    dict(id="c01-rules-type-filter-forgets-nonsym", prop="C01", file="rules.py", expect="R01d",
+         old='            if any(obj.name in self._forbidden_blocks\n                   and obj.space in self._forbidden_blocks[obj.name]\n                   for obj in term.objects):\n                continue\n            res += term\n        return res\n', new='            if self._contains_forbidden_block(term):\n                continue\n            res += term\n        return res\n\n    def _contains_forbidden_block(self, term) -> bool:\n        for obj in term.objects:\n            # only tensors have a block: skip prefactors, symbols and deltas\n            if obj.type_as_str not in ("antisymtensor", "symtensor", "amplitude"):\n                continue\n            forbidden = self._forbidden_blocks.get(obj.name, None)\n            if forbidden is not None and obj.space in forbidden:\n                return True\n        return False\n'),
+    dict(id="c01-ok-rules-type-filter", prop="C01", file="rules.py", expect=None,
+         old='            if any(obj.name in self._forbidden_blocks\n                   and obj.space in self._forbidden_blocks[obj.name]\n                   for obj in term.objects):\n                continue\n            res += term\n        return res\n', new='            if self._contains_forbidden_block(term):\n                continue\n            res += term\n        return res\n\n    def _contains_forbidden_block(self, term) -> bool:\n        for obj in term.objects:\n            # only tensors have a block: skip prefactors, symbols and deltas\n            if obj.type_as_str not in ("antisymtensor", "symtensor", "amplitude", "nonsymtensor"):\n                continue\n            forbidden = self._forbidden_blocks.get(obj.name, None)\n            if forbidden is not None and obj.space in forbidden:\n                return True\n        return False\n'),
+    dict(id="c01-ok-rules-tensor-test-by-name", prop="C01", file="rules.py", expect=None,
+         old="            if any(obj.name in self._forbidden_blocks\n",
+         new="            if any(obj.name is not None and \"tensor\" in obj.type_as_str + \"tensor\" and obj.name in self._forbidden_blocks\n"),
+    # the name read from the base object with a default: a symbol that shares the name of a restricted tensor has no
+    # block, deltas and numbers have no name
+    dict(id="c01-ok-rules-name-via-base", prop="C01", file="rules.py", expect=None,
+         old="            if any(obj.name in self._forbidden_blocks\n                   and obj.space in self._forbidden_blocks[obj.name]",
+         new="            if any(getattr(obj.base, \"name\", None) in self._forbidden_blocks\n"
+             "                   and obj.space in self._forbidden_blocks[getattr(obj.base, \"name\", None)]"),
 ]
